@@ -11,14 +11,19 @@ CHECK = {
                   "strong collision to beyond vacuum generation including +-1e-9 around the vacuum limit and around the "
                   "thresholds that decide between Newton-Raphson and Brent, several frames) and, for each problem, on "
                   "sampling speeds in every region, within 1e-9 of every wave and on the code's own double wave speeds "
-                  "+-1 ulp. Every sample is compared with a reference written from scratch (bisection on ln p* in "
+                  "+-1 ulp; plus every gas state of the alphabet next to a vacuum on either side with gas velocities "
+                  "0, +-0.5, +-1, +-1.5, +-3 and +-2/(g-1) sound speeds. "
+                  "Every sample is compared with a reference written from scratch (bisection on ln p* in "
                   "__float128, Lagrangian mass-flux form of the shock relations). exhaustive=true refers to this "
                   "alphabet; nothing is claimed between its points.",
     "level_note": "Within 1e-6 (aL+aR) of a shock or the contact of the reference either neighbouring state is accepted "
                   "(the solver's 1e-8 pressure tolerance decides the side there). Tolerances are derived from the "
                   "solver's stated accuracy (2e-8 relative on p*, propagated to u* with the reference derivative) and "
                   "from k*eps conditioning of the closed-form fan formulae; counts within 10x of each tolerance are "
-                  "reported. Input states with zero density or pressure belong to C05.",
+                  "reported. One-sided vacuum initial states (vacuum | gas, gas | vacuum) are a second family checked "
+                  "against the analytic complete fan; the solver's own vacuum boundary is located by bisection on the "
+                  "returned flag and the state just inside it must be zero within rounding. Pressureless / massless "
+                  "degenerate states belong to C05.",
     "quick_deadline": 100,
     "thorough_deadline": 1100,
     "parts": [{"name": "exact", "bin": "c11_exact"}],
